@@ -131,3 +131,55 @@ func TestZZReplay(t *testing.T) {
 		},
 	})
 }
+
+func init() {
+	// replica REST create with a negative size: Server.Create hands the size to replica.New, construct allocates the
+	// block map with it (scripted: the request goes through the real router; a handler panic is caught and reported)
+	replayTemplates = append(replayTemplates, replayTemplate{
+		match: func(o *Obligation) bool {
+			return o.Fn == "replica.Server.Create" && strings.HasPrefix(o.Kind, "pre:replica.New")
+		},
+		scripted: true,
+		pkg:      "replica/rest",
+		tags:     "debug",
+		gen: func(o *Obligation, vals map[string]string) (string, bool) {
+			return `package rest
+
+import (
+	"net/http/httptest"
+	"os"
+	"strings"
+	"testing"
+
+	"github.com/openebs/jiva/replica"
+)
+
+func TestZZReplay(t *testing.T) {
+	dir, err := os.MkdirTemp("", "zz-replay-create")
+	if err != nil {
+		t.Fatal(err)
+	}
+	defer os.RemoveAll(dir)
+	s := replica.NewServer("127.0.0.1:9502", dir, 4096, "")
+	h := NewRouter(NewServer(s))
+	code, panicked := func() (code int, p interface{}) {
+		defer func() { p = recover() }()
+		req := httptest.NewRequest("POST", "/v1/replicas/1?action=create", strings.NewReader("{\"size\":\"-4096\"}"))
+		req.Header.Set("Content-Type", "application/json")
+		rw := httptest.NewRecorder()
+		h.ServeHTTP(rw, req)
+		return rw.Code, nil
+	}()
+	t.Logf("POST ?action=create size=-4096 -> HTTP %d, panic: %v", code, panicked)
+	if panicked != nil {
+		t.Fatalf("REPLAY-REPRODUCED: the create handler panicked: %v", panicked)
+	}
+	if code < 400 {
+		t.Fatalf("REPLAY-REPRODUCED: a negative size was accepted (HTTP %d)", code)
+	}
+	t.Log("REPLAY-NOT-REPRODUCED")
+}
+`, true
+		},
+	})
+}
